@@ -645,6 +645,12 @@ func c07session(idx int) run.Result {
 		return e == nil
 	}
 	for i := 0; i < c07.perSess; i++ {
+		if len(res.Violations) >= 3 {
+			// three attacks of this session have already disturbed the witness or killed the server: the rest of
+			// the session would only repeat it, at one witness time-out (20 s) apiece
+			res.Count("attacks_not_played_after_three_violations", int64(c07.perSess-i))
+			break
+		}
 		a := c07attack(r, idx*1000+i)
 		n := fmt.Sprint(idx*1000 + i)
 		desc := map[string]any{"attack_kind": a.Kind, "attack_ending": a.End, "attack_stream_hex": hexClip(a.Stream, 400), "attack_len": len(a.Stream)}
